@@ -458,7 +458,7 @@ func (w *World) handedOver(owner, field string) (bool, string) {
 }
 
 func checkC07(w *World, r *Report) {
-	r.Explanation = "Structural clause of C07: (R-1) every in-memory controller field that is written while a block executes is one of — block-scoped (a store to it lies on every path to a normal return of a BeginBlock handler), persisted (on the start-up path — constructor, and Info for the application — it receives a value data-dependent on a persistent read: meta store getters, tm-db Get, ledger reads; loads of other controller fields count only if those fields are themselves persisted on that path), or handed over (nil at every Commit return); (R-2) what Commit makes durable is what start-up loads: each persisted field's Commit-time store is paired with a durable write of the same value, and the codecs of the persisted records (BlockContext JSON, GovParams proto) cover every field symmetrically; (R-3) write-back discipline (C01 D-6): an overlay object mutated in place is marked in its overlay on every success path, so the overlay cache — which a restart empties — never holds state the tree lacks; (R-4) nil-ness that block execution tests survives the store: for every slice field of a ledger item that a consensus function compares with nil, the item's decoder hands the wire field on as it is (absent = nil), not a copy."
+	r.Explanation = "Structural clause of C07: (R-1) every in-memory controller field that is written while a block executes is one of — block-scoped (a store to it lies on every path to a normal return of a BeginBlock handler), persisted (on the start-up path — constructor, and Info for the application — it receives a value data-dependent on a persistent read: meta store getters, tm-db Get, ledger reads; loads of other controller fields count only if those fields are themselves persisted on that path), or handed over (nil at every Commit return); (R-2) what Commit makes durable is what start-up loads: each persisted field's Commit-time store is paired with a durable write of the same value, and the codecs of the persisted records (BlockContext JSON, GovParams proto) cover every field symmetrically; (R-3) write-back discipline (C01 D-6): an overlay object mutated in place is marked in its overlay on every success path, so the overlay cache — which a restart empties — never holds state the tree lacks; (R-4) nil-ness that block execution tests survives the store: for every slice field of a ledger item that a consensus function compares with nil, the item's decoder hands the wire field on as it is (absent = nil), not a copy. R-2 asks for the installing store of GovCtrler.Commit on every successful path on which parameters were handed over."
 	r.NotCovered = "equality of results after a restart (a two-run comparison); the edge where governance limits change in the very block before the restart; restart inside a block (C08)."
 	x := NewExecCtx(w)
 	r1(w, r, x)
@@ -1530,7 +1530,7 @@ func startupLag(w *World, r *Report, rule string) {
 // ---------------------------------------------------------------- C10
 
 func checkC10(w *World, r *Report) {
-	r.Explanation = "Structural clause of C10: (U-1) the candidate list is rebuilt in BeginBlock from the committed delegatee tree, filtered by SelfPower >= AmountToPower(MinValidatorStake()), sorted with PowerOrderDelegatees (a total order: power, stake count, address), and truncated to min(len, MaxValidatorCnt()); (U-2) validatorUpdates is a merge-diff whose behaviour depends only on sign(compare(existing[i].Addr, newers[j].Addr)) and on TotalPower inequality: per branch the emitted (public key, power) and the index increments are compared with the decision table, both inputs are sorted with AddressOrderDelegatees (whose direction agrees with the merge) immediately before the call; (U-3) the new selection becomes lastValidators after the diff and the diff is what EndBlock returns to consensus; (U-4) the set the diff is computed against must survive a restart (C07 R-1); (U-5) a deleted delegatee record is not written back on the same path; (U-6) an object of the candidate list (decoded from the committed tree) does not become the delegatee overlay's working object (C01 D-6 stale-copy)."
+	r.Explanation = "Structural clause of C10: (U-1) the candidate list is rebuilt in BeginBlock from the committed delegatee tree, filtered by SelfPower >= AmountToPower(MinValidatorStake()), sorted with PowerOrderDelegatees (a total order: power, stake count, address), and truncated to min(len, MaxValidatorCnt()); (U-2) validatorUpdates is a merge-diff whose behaviour depends only on sign(compare(existing[i].Addr, newers[j].Addr)) and on TotalPower inequality: per branch the emitted (public key, power) and the index increments are compared with the decision table, both inputs are sorted with AddressOrderDelegatees (whose direction agrees with the merge) immediately before the call; (U-3) the new selection becomes lastValidators after the diff and the diff is what EndBlock returns to consensus; (U-4) the set the diff is computed against must survive a restart (C07 R-1); (U-5) a deleted delegatee record is not written back on the same path; (U-6) an object of the candidate list (decoded from the committed tree) does not become the delegatee overlay's working object (C01 D-6 stale-copy). (U-7) the iterator the candidates are rebuilt with reads the tree alone (C18 L-2)."
 	r.NotCovered = "the fold of updates over a history; Tendermint's acceptance rules; negative powers (TotalPower is non-negative by C11)."
 	u1(w, r)
 	u2(w, r)
